@@ -235,7 +235,7 @@ package sender
 // requests, the tiling of the file by literal runs and matched blocks, and
 // the strong-checksum gate in front of every block reference.
 //@ func (*sender.Transfer).hashSearch
-//@   nowrap
+//@   nowrap[C02]
 //@   requires[C02] [sums-nonempty] len(head.Sums) > 0 && len(head.Sums) == head.ChecksumCount && len(targets) == len(head.Sums)
 //@   requires[C02] [header-ranges] 1 <= head.BlockLength && head.BlockLength <= 536870912 && 0 <= head.ChecksumLength && head.ChecksumLength <= 16
 //@   requires[C02] [block-lengths] forall q :: 0 <= q && q < len(head.Sums) ==> 1 <= head.Sums[q].Len && head.Sums[q].Len <= head.BlockLength
